@@ -509,6 +509,7 @@ type Contract struct {
 	ModifiesAll bool
 	NoInline   bool
 	Glue       bool // only assert/ensures/frame obligations are generated for this function
+	Nilable    []string
 	Asserts    []AssertAt
 	File       string
 	Ghost      []string
@@ -592,7 +593,7 @@ func (sp *Specs) loadSpecFile(path, pkgPath string) error {
 		}
 		first := strings.Fields(trim)[0]
 		switch first {
-		case "func", "spec", "lemma", "axiom", "requires", "ensures", "loop", "inst", "allow_panic", "trusted", "pure", "modifies", "let", "package", "assert", "noinline", "ghost", "reveal", "inline", "glue":
+		case "func", "spec", "lemma", "axiom", "requires", "ensures", "loop", "inst", "allow_panic", "trusted", "pure", "modifies", "let", "package", "assert", "noinline", "ghost", "reveal", "inline", "glue", "nilable":
 			clauses = append(clauses, rawClause{trim, i + 1})
 		default:
 			if len(clauses) == 0 {
@@ -745,6 +746,11 @@ func (sp *Specs) loadSpecFile(path, pkgPath string) error {
 			cur.NoInline = true
 		case "glue":
 			cur.Glue = true
+		case "nilable":
+			// nilable p, q: these pointer parameters may be nil (the default assumption is non-nil)
+			for _, n := range strings.Split(rest, ",") {
+				cur.Nilable = append(cur.Nilable, strings.TrimSpace(n))
+			}
 		case "ghost":
 			cur.Ghost = append(cur.Ghost, rest)
 		case "reveal":
